@@ -31,8 +31,8 @@ fcppt::random::distribution::parameters::normal<FloatType>
 fcppt::random::distribution::parameters::normal<FloatType>::convert_to(distribution const &_dist)
 {
   return normal(
-      mean(fcppt::random::distribution::decorated_value(_dist.mean())),
-      stddev(fcppt::random::distribution::decorated_value(_dist.stddev())));
+      mean(fcppt::random::distribution::decorated_value<FloatType>(_dist.mean())),
+      stddev(fcppt::random::distribution::decorated_value<FloatType>(_dist.stddev())));
 }
 
 #endif
